@@ -158,9 +158,9 @@ def run(ctx):
     table(T + "rank::Rank::bitboard", ["self"], [(x,) for x in range(8)], lambda x: geom.rank_bb(x), "Rank::bitboard")
     # File::adjacent through its table
     b, ps = rpaths(f, T + "file::File::adjacent")
-    tab = f.consts.get(T + "file::File::adjacent::TABLE")
-    okadj = tab is not None and "dec" in tab and [c["fields"][0][1] for c in tab["dec"]] == \
-        [(geom.file_bb(x - 1) if x > 0 else 0) | (geom.file_bb(x + 1) if x < 7 else 0) for x in range(8)]
+    want_adj = tuple(("bbconst", (geom.file_bb(x - 1) if x > 0 else 0) | (geom.file_bb(x + 1) if x < 7 else 0)) for x in range(8))
+    selfidx = ("cast", "usize", ("discr", ("param", "self")))
+    okadj = len(ps) == 1 and ps[0].end == "return" and ps[0].ret[0] == "index" and ps[0].ret[1] == ("array", want_adj) and ps[0].ret[2] == selfidx
     ctx.check(okadj, "File::adjacent", "File::adjacent table is not the neighbouring files", loc(b))
     # ---- try_offset by decomposition
     b, ps = rpaths(f, SQ + "::try_offset")
